@@ -31,6 +31,22 @@ DRB = "grep_cli::decompress::DecompressionReaderBuilder"
 SC = "rg::search::Config"
 
 
+def worker_select_rows(facts):
+    """Rows of SearchWorker::search as a MIR value table: (is_stdin, should_preprocess, should_decompress) ∈ {0,1}³ → the set of
+    search_* methods of the worker that are executable. should_* are the row's inputs here (their own tables are separate)."""
+    from ..flow import table
+    SWK = "rg::search::SearchWorker"
+    f = facts.fn(SWK + "::search")
+    targets = {n: f.calls_to(SWK + "::" + n) for n in ("search_reader", "search_preprocessor", "search_decompress", "search_path")}
+    out = []
+    for row, sx in table(facts, f, calls={"Haystack::is_stdin": [I(0), I(1)], "SearchWorker::should_preprocess": [I(0), I(1)],
+                                          "SearchWorker::should_decompress": [I(0), I(1)]}):
+        bits = (row[("call", "Haystack::is_stdin")][1], row[("call", "SearchWorker::should_preprocess")][1],
+                row[("call", "SearchWorker::should_decompress")][1])
+        ran = sorted(n for n, cs in targets.items() if any(c.bb in sx.exec_blocks for c in cs))
+        out.append((bits, ran))
+    return f, targets, out
+
 def run(ctx):
     facts = ctx.facts
     with ctx.rule("C18.CLOSE", "close() on every path after a reader was built; both results propagated, search result not ?-ed first",
@@ -107,54 +123,59 @@ def run(ctx):
             r.ok("wait-error", "an error of wait() is propagated", fn=f)
         else:
             r.bad("wait-error", "the result of Child::wait is %s" % v, fn=f, construct="wait")
-        # failing status: Ok only under !eof && stderr empty
-        su = cond_switches(f, lambda e: is_call(e, "std::process::ExitStatus::success"), eb)
-        eofs = cond_switches(f, lambda e: W.field_of(e, CR, "eof"), eb)
-        emp = cond_switches(f, lambda e: is_call(e, "grep_cli::process::CommandError::is_empty"), eb)
-        oks = [bb for bb, j, st in f.stmts() if st["k"] == "assign" and st["place"]["l"] == 0 and st["rv"]["k"] == "agg"
-               and st["rv"].get("variant") == "Ok"]
-        if su and eofs and emp:
-            # Ok answers reachable once success() has answered false: each must lie behind both `!eof` and `stderr empty`
-            ft = su[0][2][1]
-            fail_reg = C.reach(f, [ft])
-            lenient = [b for b in oks if b in fail_reg]
-            errs = [bb for bb, j, st in f.stmts() if st["k"] == "assign" and st["place"]["l"] == 0 and st["rv"]["k"] == "agg"
-                    and st["rv"].get("variant") == "Err" and bb in fail_reg]
-            no_eof = C.reach(f, [ft], removed_edges={x[2] for x in eofs})      # paths that never take the `eof == false` edge
-            no_emp = C.reach(f, [ft], removed_edges={x[1] for x in emp})       # paths that never take the `is_empty() == true` edge
-            good = lenient and errs and not any(b in no_eof or b in no_emp for b in lenient)
-            if good:
-                r.ok("status", "failing status ⇒ Err unless (!eof ∧ stderr empty)", fn=f)
-            else:
-                r.bad("status", "a failing exit status is accepted outside the 'stopped reading early and nothing on stderr' case", fn=f,
-                      construct="status")
-            rte = f.calls_to("grep_cli::process::StderrReader::read_to_end")
-            if rte and not guarded(f, [rte[0].bb], su, False):
-                r.ok("stderr-read", "stderr is collected only after a failing status", fn=f, nontrivial=False)
-            else:
-                r.bad("stderr-read", "stderr collection is not tied to a failing exit status", fn=f)
+        # value table: (child.stdout taken = Some, wait() = Ok) × success ∈ {0,1} × eof ∈ {0,1} × stderr empty ∈ {0,1}:
+        # Ok ⇔ success ∨ (¬eof ∧ stderr empty); stderr is collected only after a failing status
+        from ..flow import table, ret_set
+        rte = f.calls_to("grep_cli::process::StderrReader::read_to_end")
+        wrong, early_read = [], False
+        for row, sx in table(facts, f, fields={(CR, "eof"): [I(0), I(1)]},
+                             calls={"Option::take": [V("Some", None)], "Child::wait": [V("Ok", None)],
+                                    "ExitStatus::success": [I(0), I(1)], "CommandError::is_empty": [I(0), I(1)]}):
+            su, eof_, emp_ = row[("call", "ExitStatus::success")][1], row[("field", (CR, "eof"))][1], row[("call", "CommandError::is_empty")][1]
+            want_ok = bool(su or (not eof_ and emp_))
+            rv = ret_set(sx)
+            is_ok = bool(rv) and all(v is not None and v[0] == "v" and v[1] == "Ok" for v in rv)
+            is_err = bool(rv) and all(v is not None and v[0] == "v" and v[1] == "Err" for v in rv)
+            if (want_ok and not is_ok) or (not want_ok and not is_err):
+                wrong.append("success=%d eof=%d stderr-empty=%d ⇒ %s" % (su, eof_, emp_, sorted(map(str, rv))))
+            if su and any(c.bb in sx.exec_blocks for c in rte):
+                early_read = True
+        if wrong:
+            r.bad("status", "a failing exit status is accepted outside the 'stopped reading early and nothing on stderr' case (%s)"
+                  % wrong[0], fn=f, construct="status")
         else:
-            r.bad("status", "anchor-missing: close() status logic (success %d, eof %d, is_empty %d)" % (len(su), len(eofs), len(emp)), fn=f)
+            r.ok("status", "failing status ⇒ Err unless (!eof ∧ stderr empty) (8 rows)", fn=f)
+        if rte and not early_read:
+            r.ok("stderr-read", "stderr is collected only after a failing status", fn=f, nontrivial=False)
+        else:
+            r.bad("stderr-read", "stderr collection is not tied to a failing exit status", fn=f)
         g = facts.fn("<%s as std::io::Read>::read" % CR)
         ebg = ExprBuilder(g)
-        z = cond_switches(g, lambda e: e.k == "bin" and e[1] == "Eq" and any(y.k == "const" and y[1] == 0 for y in (e[2], e[3]))
-                          and mentions_call(e, "std::io::Read::read"), ebg)
         cl = g.calls_to(CR + "::close")
-        if z and cl and not guarded(g, [cl[0].bb], z, True):
-            s = Sccp(g).run([(z[0][1][1], {})])
-            wrote = [st for bb, j, st in g.stmts() if bb in s.exec_blocks and st["k"] == "assign" and (CR, "eof") in fields_of_place(st["place"])
-                     and (op_const(st["rv"].get("a", {})) or {}).get("val") == 1]
-            ret = ebg.local(0)
-            if wrote and mentions_call(ret, CR + "::close"):
-                r.ok("read-eof", "zero-length read ⇒ eof = true, close(), close's error returned", fn=g)
-            else:
-                r.bad("read-eof", "at end of the child's output read() does not mark EOF and return close()'s verdict", fn=g, construct="read-eof")
-            # eof set before close
-            if wrote and all(C.dominates(g, bb_, cl[0].bb) for bb_ in [bb for bb, j, st in g.stmts() if st in wrote]):
+        eofw = [bb for bb, j_, st in g.stmts() if st["k"] == "assign" and (CR, "eof") in fields_of_place(st["place"])
+                and (op_const(st["rv"].get("a", {})) or {}).get("val") == 1]
+        # value table: the child's stdout is there, the inner read answers Ok(0) / Ok(5)
+        res, verdict = {}, {}
+        for row, sx in table(facts, g, fields={("std::process::Child", "stdout"): [V("Some", None)]},
+                             calls={"io::Read::read": [V("Ok", I(0)), V("Ok", I(5))], "Option::as_mut": [V("Some", None)],
+                                    "CommandReader::close": [V("Ok", None), V("Err", None)]}):
+            n_ = row[("call", "io::Read::read")][2][1]
+            cv = row[("call", "CommandReader::close")][1]
+            res[n_] = (any(c.bb in sx.exec_blocks for c in cl), any(b in sx.exec_blocks for b in eofw), ret_set(sx))
+            if n_ == 0:
+                verdict[cv] = ret_set(sx)
+        returns_close = verdict.get("Ok") == {V("Ok", I(0))} and bool(verdict.get("Err")) and \
+            all(v is not None and v[0] == "v" and v[1] == "Err" for v in verdict.get("Err", set()))
+        if cl and res.get(0, (False,))[0] and res[0][1] and not res.get(5, (True,))[0] and not res[5][1] and \
+                returns_close and res[5][2] == {V("Ok", I(5))}:
+            r.ok("read-eof", "zero-length read ⇒ eof = true, close(), close's error returned; otherwise Ok(n)", fn=g)
+            if all(C.dominates(g, bb_, cl[0].bb) for bb_ in eofw):
                 r.ok("read-eof-order", "eof is set before close() evaluates it", fn=g)
             else:
                 r.bad("read-eof-order", "close() runs before eof is recorded: a failing command after full output would be forgiven", fn=g,
                       construct="read-eof")
+        elif cl and res.get(0, (False,))[0]:
+            r.bad("read-eof", "at end of the child's output read() does not mark EOF and return close()'s verdict", fn=g, construct="read-eof")
         else:
             r.bad("read-eof", "read() does not close the child when its output ends", fn=g, construct="read-eof")
         d = facts.fn("<%s as core::ops::drop::Drop>::drop" % CR)
@@ -237,59 +258,44 @@ def run(ctx):
     with ctx.rule("C18.SELECT", "stdin → pre → zip → path; selection predicates (truth tables)", floor=6, exhaustive=True,
                   kind="TABLE/TRUTH") as r:
         f = facts.fn(SW + "::search")
-        tail = H.tail_expr(f.hir)
-        atoms = ["haystack.is_stdin()", "self.should_preprocess(path)", "self.should_decompress(path)"]
-        envs = H.LetEnv(f.hir)
-        got = H.decision_atoms(tail, envs)
-        if set(got) != set(atoms):
-            r.bad("order|atoms", "strategy selection depends on %s" % got, fn=f)
+        f, targets, rows = worker_select_rows(facts)
+        bad = None
+        for bits, ran in rows:
+            want = "search_reader" if bits[0] else ("search_preprocessor" if bits[1] else ("search_decompress" if bits[2] else "search_path"))
+            if ran != [want]:
+                bad = ("stdin=%d pre=%d zip=%d" % bits, "/".join(ran) or "nothing", want)
+        if not all(targets.values()):
+            r.bad("order|atoms", "anchor-missing: SearchWorker::search no longer calls %s" % sorted(n for n, c in targets.items() if not c), fn=f)
+        elif bad:
+            r.bad("order", "for %s the worker runs `%s`, specified %s" % bad, fn=f, construct="order")
         else:
-            bad = None
-            for bits in itertools.product([False, True], repeat=3):
-                v = dict(zip(atoms, bits))
-                leaf = H.decide(tail, v, envs)
-                want = "search_reader" if v[atoms[0]] else ("search_preprocessor" if v[atoms[1]] else
-                                                           ("search_decompress" if v[atoms[2]] else "search_path"))
-                if ("self.%s(" % want) not in leaf:
-                    bad = (v, leaf, want)
-            if bad:
-                r.bad("order", "for %s the worker runs `%s`, specified %s" % bad, fn=f, construct="order")
-            else:
-                r.ok("order", "stdin → search_reader; else --pre; else -z; else the path (8 rows)", fn=f)
+            r.ok("order", "stdin → search_reader; else --pre; else -z; else the path (8 rows)", fn=f)
+        from ..flow import table, ret_set
+        CFG_ = "rg::search::Config"
         g = facts.fn(SW + "::should_preprocess")
-        at = H.fn_atoms(g.hir)
-        want_at = ["self.config.preprocessor.is_some()", "self.config.preprocessor_globs.is_empty()",
-                   "self.config.preprocessor_globs.matched(path, false).is_ignore()"]
-        if set(at) != set(want_at):
-            r.bad("should_preprocess", "should_preprocess depends on %s" % at, fn=g)
+        bad = None
+        for row, sx in table(facts, g, fields={(CFG_, "preprocessor"): [V("Some", None), V("None", None)]},
+                             calls={"Override::is_empty": [I(0), I(1)], "Match::is_ignore": [I(0), I(1)]}):
+            pre = row[("field", (CFG_, "preprocessor"))][1] == "Some"
+            emp, ign = row[("call", "Override::is_empty")][1], row[("call", "Match::is_ignore")][1]
+            spec = pre and (bool(emp) or not ign)
+            if ret_set(sx) != {I(int(spec))}:
+                bad = "preprocessor=%s globs-empty=%d ignored=%d ⇒ %s" % (pre, emp, ign, sorted(map(str, ret_set(sx))))
+        if bad:
+            r.bad("should_preprocess", "should_preprocess differs from pre.is_some() ∧ (globs empty ∨ ¬ignored) at %s" % bad, fn=g,
+                  construct="should_preprocess")
         else:
-            bad = None
-            for bits in itertools.product([False, True], repeat=3):
-                v = dict(zip(want_at, bits))
-                got_ = H.eval_fn(g.hir, v)
-                spec = v[want_at[0]] and (v[want_at[1]] or not v[want_at[2]])
-                if bool(got_) != bool(spec):
-                    bad = v
-            if bad:
-                r.bad("should_preprocess", "should_preprocess differs from pre.is_some() ∧ (globs empty ∨ ¬ignored) at %s" % bad, fn=g,
-                      construct="should_preprocess")
-            else:
-                r.ok("should_preprocess", "≡ pre.is_some() ∧ (globs empty ∨ ¬ignored) (8 rows)", fn=g)
+            r.ok("should_preprocess", "≡ pre.is_some() ∧ (globs empty ∨ ¬ignored) (8 rows)", fn=g)
         h = facts.fn(SW + "::should_decompress")
-        at = H.fn_atoms(h.hir)
-        want_at = ["self.config.search_zip", "self.decomp_builder.get_matcher().has_command(path)"]
-        if set(at) != set(want_at):
-            r.bad("should_decompress", "should_decompress depends on %s" % at, fn=h)
+        bad = None
+        for row, sx in table(facts, h, fields={(CFG_, "search_zip"): [I(0), I(1)]}, calls={"DecompressionMatcher::has_command": [I(0), I(1)]}):
+            z, hc = row[("field", (CFG_, "search_zip"))][1], row[("call", "DecompressionMatcher::has_command")][1]
+            if ret_set(sx) != {I(int(z and hc))}:
+                bad = "search_zip=%d has_command=%d ⇒ %s" % (z, hc, sorted(map(str, ret_set(sx))))
+        if bad:
+            r.bad("should_decompress", "should_decompress differs from search_zip ∧ has_command at %s" % bad, fn=h, construct="should_decompress")
         else:
-            bad = None
-            for bits in itertools.product([False, True], repeat=2):
-                v = dict(zip(want_at, bits))
-                if bool(H.eval_fn(h.hir, v)) != bool(v[want_at[0]] and v[want_at[1]]):
-                    bad = v
-            if bad:
-                r.bad("should_decompress", "should_decompress differs from search_zip ∧ has_command at %s" % bad, fn=h, construct="should_decompress")
-            else:
-                r.ok("should_decompress", "≡ search_zip ∧ has_command(path) (4 rows)", fn=h)
+            r.ok("should_decompress", "≡ search_zip ∧ has_command(path) (4 rows)", fn=h)
         # CLI wiring
         k = facts.fn("rg::flags::hiargs::HiArgs::search_worker")
         ebk = ExprBuilder(k)
